@@ -48,7 +48,7 @@ Section Blocks.
       at_eof (l0 :: rest) = false -> is_header_line l0 = false -> elem_step iparse cur n l0 rest = SElem k src c ->
       flat_loop iparse finc (S fuel) fi cur n (l0 :: rest)
       = rbind (flat_loop iparse finc fuel fi cur (n + N.of_nat c) (skipn c (l0 :: rest)))
-              (fun out => Ok ((cur, Element k src (fi_path fi) (fi_chain fi)) :: out)).
+              (fun out => Ok ((cur, Element k src (fi_path fi) (fi_chain fi) (elem_desc cur l0 rest)) :: out)).
   Proof. intros fuel cur n l0 rest k src c He Hh Hs. cbn [flat_loop]. rewrite He, Hh, Hs. reflexivity. Qed.
 
   (** ** [act]: the whole body is one instruction *)
@@ -71,7 +71,7 @@ Section Blocks.
                      [(map un_escape (l :: body), fi_path fi, map l_path (fi_chain fi))].
   Proof.
     intros h l body Hb n tail Ht. cbn [b_sec b_body].
-    exists [(SAct, Element KInstr (LineSeq n (map un_escape (l :: body))) (fi_path fi) (fi_chain fi))].
+    exists [(SAct, Element KInstr (LineSeq n (map un_escape (l :: body))) (fi_path fi) (fi_chain fi) None)].
     split; [|split].
     - intros fuel Hlen. destruct fuel as [|fuel]; [lia|].
       apply Forall_cons_iff in Hb as [Hl Hb].
@@ -133,7 +133,7 @@ Section Blocks.
     cbn [b_sec b_body] in *.
     destruct (Hsc (n + N.of_nat (S (length more))) tail Ht) as [E [HE [Htag HC]]].
     cbn [b_sec b_body] in HE, Htag.
-    exists ((s, Element KInstr (LineSeq n (skipn (count_while is_space l) l :: more)) (fi_path fi) (fi_chain fi)) :: E).
+    exists ((s, Element KInstr (LineSeq n (skipn (count_while is_space l) l :: more)) (fi_path fi) (fi_chain fi) (elem_desc s l ((more ++ body) ++ tail))) :: E).
     split; [|split].
     - intros fuel Hlen. destruct fuel as [|fuel]; [lia|].
       assert (Hstep : elem_step iparse s n l ((more ++ body) ++ tail)
@@ -192,7 +192,7 @@ Section Blocks.
           exists KComment. split; [reflexivity|discriminate]. }
       destruct s; try exact Hna. contradiction. }
     destruct Hstep as [k [Hstep Hk]].
-    exists ((s, Element k (LineSeq n [l]) (fi_path fi) (fi_chain fi)) :: E).
+    exists ((s, Element k (LineSeq n [l]) (fi_path fi) (fi_chain fi) (elem_desc s l ((l1 :: body) ++ tail))) :: E).
     split; [|split].
     - intros fuel Hlen. destruct fuel as [|fuel]; [lia|].
       change ((l :: l1 :: body) ++ tail) with (l :: (l1 :: body) ++ tail) in *.
